@@ -11,6 +11,8 @@ use vcore::refcodec::*;
 
 pub const LEAVES: [&str; 5] = ["valid", "wronghost", "expired", "selfsigned", "unknownca"];
 pub const ROOTS: [&str; 4] = ["none", "issuing-ca-pem", "issuing-ca-der", "unrelated-ca"];
+/// two ca_cert() calls on one builder: every root given must be trusted, whatever follows it
+pub const MULTI_ROOTS: [&str; 3] = ["issuing-ca-pem+unrelated-ca", "issuing-ca-der+unrelated-ca", "unrelated-ca+issuing-ca-pem"];
 /// "true-then-false": ignore_tls_errors(true) followed by ignore_tls_errors(false) on the same builder -
 /// the last call wins, the client must verify
 /// "root-then-true-then-false" / "true-then-root-then-false": the same two calls with ca_cert() before /
@@ -83,7 +85,7 @@ impl Cell {
     }
     /// policy model: what the statement requires for this cell
     pub fn expectation(&self) -> &'static str {
-        let chains = (self.leaf == "valid" && (self.root == "issuing-ca-pem" || self.root == "issuing-ca-der")) || (self.leaf == "validtiny" && (self.root == "tiny-ca-pem" || self.root == "tiny-ca-der"));
+        let chains = (self.leaf == "valid" && self.root.split('+').any(|r| r == "issuing-ca-pem" || r == "issuing-ca-der")) || (self.leaf == "validtiny" && (self.root == "tiny-ca-pem" || self.root == "tiny-ca-der"));
         let host_ok = self.host == "localhost" || self.host == "https://localhost"; // the fixtures' SAN is DNS:localhost only
         let good = chains && host_ok; // "valid" = right host name, not expired, signed by the issuing CA
         if good {
@@ -112,6 +114,11 @@ pub struct CellResult {
     pub app_bytes: usize,
     pub handshakes_completed: usize,
     pub verdict: Result<(), (String, String)>,
+}
+
+/// the root files a root name stands for, in the order they are given to ca_cert()
+fn root_list(root: &str) -> Vec<Vec<u8>> {
+    root.split('+').filter_map(root_bytes).collect()
 }
 
 fn root_bytes(root: &str) -> Option<Vec<u8>> {
@@ -182,11 +189,21 @@ pub fn run_leaf(backend: &str, leaf: &'static str, hosts: &[&'static str], rt: &
                 // the extra block for the tiny CA (DER shorter than 256 octets): accepted as PEM and as DER
                 FLAGS.iter().flat_map(|f| ["tiny-ca-der", "tiny-ca-pem", "none", "issuing-ca-der"].into_iter().map(move |r| (*f, r))).collect()
             } else {
-                cell_order(order)
+                let mut c = cell_order(order);
+                // two ca_cert() calls, for the strict flag values
+                for flag in ["unset", "false"] {
+                    for root in MULTI_ROOTS {
+                        c.push((flag, root));
+                    }
+                }
+                c
             };
             for (flag, root) in cells {
                 // IP-literal targets: the fixtures' SAN is DNS:localhost only, so every certificate
                 // mismatches the host; only the cells that would otherwise be accepted are interesting
+                if root.contains('+') && host != "localhost" {
+                    continue;
+                }
                 if host == "https://localhost" {
                     // the same target spelled https:// instead of ipps://: a reduced block
                     if !(matches!(root, "issuing-ca-pem" | "issuing-ca-der" | "none") && matches!(flag, "unset" | "true") && leaf != "validtiny") {
@@ -212,15 +229,20 @@ pub fn run_leaf(backend: &str, leaf: &'static str, hosts: &[&'static str], rt: &
                     .parse()
                     .unwrap();
                     let before = server.conn_count();
-                    let rb = root_bytes(root);
+                    let rb = root_list(root);
                     let outcome: Result<Result<IppRequestResponse, String>, String> = if client == "blocking" {
                         let mut b = IppClient::builder(uri).request_timeout(Duration::from_secs(20));
                         for call in builder_calls(flag) {
-                            b = match (call, &rb) {
-                                ('T', _) => b.ignore_tls_errors(true),
-                                ('F', _) => b.ignore_tls_errors(false),
-                                (_, Some(r)) => b.ca_cert(r),
-                                _ => b,
+                            b = match call {
+                                'T' => b.ignore_tls_errors(true),
+                                'F' => b.ignore_tls_errors(false),
+                                _ => {
+                                    let mut b = b;
+                                    for r in &rb {
+                                        b = b.ca_cert(r);
+                                    }
+                                    b
+                                }
                             };
                         }
                         let c = b.build();
@@ -228,11 +250,16 @@ pub fn run_leaf(backend: &str, leaf: &'static str, hosts: &[&'static str], rt: &
                     } else {
                         let mut b = AsyncIppClient::builder(uri).request_timeout(Duration::from_secs(20));
                         for call in builder_calls(flag) {
-                            b = match (call, &rb) {
-                                ('T', _) => b.ignore_tls_errors(true),
-                                ('F', _) => b.ignore_tls_errors(false),
-                                (_, Some(r)) => b.ca_cert(r),
-                                _ => b,
+                            b = match call {
+                                'T' => b.ignore_tls_errors(true),
+                                'F' => b.ignore_tls_errors(false),
+                                _ => {
+                                    let mut b = b;
+                                    for r in &rb {
+                                        b = b.ca_cert(r);
+                                    }
+                                    b
+                                }
                             };
                         }
                         let c = b.build();
@@ -288,9 +315,12 @@ pub fn run_matrix(backend: &str, with_ip_target: bool, order: u64) -> Result<Vec
     let hosts: Vec<&'static str> = vec!["localhost", "127.0.0.1", "[::1]", "https://localhost"];
     let mut all = Vec::new();
     let results: Vec<Result<Vec<CellResult>, String>> = std::thread::scope(|sc| {
+        // VERIF_TLS_REDUCED: the second run under a damaged system trust store uses three certificates
+        let reduced = std::env::var("VERIF_TLS_REDUCED").is_ok();
         let hs: Vec<_> = LEAVES
             .iter()
             .chain(["validtiny"].iter())
+            .filter(|l| !reduced || matches!(**l, "valid" | "unknownca" | "validtiny"))
             .map(|leaf| {
                 let (rt, hosts) = (&rt, &hosts);
                 sc.spawn(move || run_leaf(backend, leaf, hosts, rt, order))
@@ -323,4 +353,60 @@ pub fn replay_cell(backend: &str, v: &Value) -> Result<CellResult, String> {
         }
     }
     Err("cell not found".into())
+}
+
+
+// ---------------------------------------------------------------------------------------------
+// C14, live, per TLS backend / feature set: what the first octets on the wire are for an ipp:// and an
+// ipps:// target (a clear-text HTTP request line vs. a TLS ClientHello). Included by both binaries, so
+// it runs with the native-tls feature set and with the rustls-only feature set.
+// ---------------------------------------------------------------------------------------------
+
+pub fn first_octets_on_the_wire(backend: &str, rt: &tokio::runtime::Runtime) -> Vec<(String, Result<(), (String, String)>)> {
+    use std::io::Read;
+    let mut out = Vec::new();
+    for scheme in ["ipp", "ipps", "http", "https"] {
+        for client in ["blocking", "async"] {
+            let listener = match std::net::TcpListener::bind("127.0.0.1:0") {
+                Ok(l) => l,
+                Err(e) => {
+                    out.push((format!("{backend}/{client}/{scheme}"), Err(("infra/listener".to_string(), e.to_string()))));
+                    continue;
+                }
+            };
+            let port = listener.local_addr().map(|a| a.port()).unwrap_or(0);
+            let (tx, rx) = std::sync::mpsc::channel();
+            std::thread::spawn(move || {
+                if let Ok((mut s, _)) = listener.accept() {
+                    let _ = s.set_read_timeout(Some(Duration::from_secs(10)));
+                    let mut b = [0u8; 5];
+                    let n = s.read(&mut b).unwrap_or(0);
+                    let _ = tx.send(b[..n].to_vec());
+                    // no answer: the client fails either way, only its first octets matter
+                }
+            });
+            let uri: Uri = format!("{scheme}://127.0.0.1:{port}/ipp/print").parse().unwrap();
+            let _ = if client == "blocking" {
+                let c = IppClient::builder(uri).request_timeout(Duration::from_secs(5)).build();
+                vcore::runner::catch(move || c.send(request()).map(|_| ()).map_err(|e| format!("{e:?}")))
+            } else {
+                let c = AsyncIppClient::builder(uri).request_timeout(Duration::from_secs(5)).build();
+                vcore::runner::catch(move || rt.block_on(async move { c.send(request()).await.map(|_| ()).map_err(|e| format!("{e:?}")) }))
+            };
+            let first = rx.recv_timeout(Duration::from_secs(10)).unwrap_or_default();
+            let tls = scheme == "ipps" || scheme == "https";
+            let verdict = if first.is_empty() {
+                // nothing was sent at all (a client without TLS support refusing an https target, say): not a mapping error
+                Ok(())
+            } else if tls && first[0] != 0x16 {
+                Err((format!("C14/clear-text-for-{scheme}/{client}"), format!("{backend} feature set, {client} client, target {scheme}://127.0.0.1:{port}/ipp/print: the first octets on the wire are {:?} - a clear-text request where a TLS handshake belongs", String::from_utf8_lossy(&first))))
+            } else if !tls && !first.starts_with(b"POST") {
+                Err((format!("C14/not-clear-text-http-for-{scheme}/{client}"), format!("{backend} feature set, {client} client, target {scheme}://127.0.0.1:{port}/ipp/print: the first octets on the wire are {first:02x?}, not an HTTP request line")))
+            } else {
+                Ok(())
+            };
+            out.push((format!("{backend}/{client}/{scheme}"), verdict));
+        }
+    }
+    out
 }
